@@ -35,6 +35,7 @@ import (
 	"go/token"
 	"os"
 	"path/filepath"
+	"sort"
 	"strconv"
 	"strings"
 )
@@ -441,12 +442,25 @@ func main() {
 		probe bool
 	}
 	var savers []saver
+	type minfo struct {
+		save, probe bool
+		calls       []string // other Service methods called through the receiver
+		order       int
+	}
+	methods := map[string]*minfo{}
+	norder := 0
 	for _, d := range sf.Decls {
 		fd, ok := d.(*ast.FuncDecl)
 		if !ok || fd.Body == nil {
 			continue
 		}
+		recvName := ""
+		if fd.Recv != nil && len(fd.Recv.List) == 1 && len(fd.Recv.List[0].Names) == 1 {
+			recvName = fd.Recv.List[0].Names[0].Name
+		}
 		var savePos, probePos token.Pos
+		mi := &minfo{order: norder}
+		norder++
 		ast.Inspect(fd, func(n ast.Node) bool {
 			c, ok := n.(*ast.CallExpr)
 			if !ok {
@@ -454,6 +468,11 @@ func main() {
 			}
 			if id, ok := c.Fun.(*ast.Ident); ok && id.Name == "Save" && savePos == 0 {
 				savePos = c.Pos()
+			}
+			if se, ok := c.Fun.(*ast.SelectorExpr); ok && recvName != "" {
+				if x, ok := se.X.(*ast.Ident); ok && x.Name == recvName {
+					mi.calls = append(mi.calls, se.Sel.Name)
+				}
 			}
 			switch sel(c.Fun) {
 			case "file.IsWritable":
@@ -466,17 +485,36 @@ func main() {
 			}
 			return true
 		})
-		if savePos == 0 {
-			if probePos != 0 {
-				die("service.go %s: IsWritable without Save", fd.Name.Name)
-			}
-			continue
+		if savePos == 0 && probePos != 0 {
+			die("service.go %s: IsWritable without Save", fd.Name.Name)
 		}
 		if probePos != 0 && probePos > savePos {
 			die("service.go %s: IsWritable after Save", fd.Name.Name)
 		}
-		savers = append(savers, saver{fd.Name.Name, probePos != 0})
+		mi.save, mi.probe = savePos != 0, probePos != 0
+		methods[fd.Name.Name] = mi
 	}
+	// a method that saves through another Service method (a helper such as saveWallet) inherits the
+	// helper's operations, including its probe
+	for changed := true; changed; {
+		changed = false
+		for _, mi := range methods {
+			for _, c := range mi.calls {
+				if cm, ok := methods[c]; ok && cm.save {
+					if !mi.save || (cm.probe && !mi.probe) {
+						mi.save, mi.probe = true, mi.probe || cm.probe
+						changed = true
+					}
+				}
+			}
+		}
+	}
+	for name, mi := range methods {
+		if mi.save {
+			savers = append(savers, saver{name, mi.probe})
+		}
+	}
+	sort.Slice(savers, func(i, j int) bool { return methods[savers[i].name].order < methods[savers[j].name].order })
 	if len(savers) == 0 {
 		die("no Service method calls Save")
 	}
